@@ -572,9 +572,12 @@ fn compile_error_lines(ctx: &Ctx, report: &mut Report) -> usize {
     }
     // after a string whose escape sequence runs into the end of its line (the escape is reported; the lines
     // it swallowed still count): the stray token further down is reported on its own line
-    for esc in ["\\x", "\\xA", "\\u00", "\\u004", "\\U0000", "\\U000000"] {
+    // (a backslash or a dollar sign as the last character of the line: the string ends there with an error, and
+    // the second line is a comment)
+    for esc in ["\\x", "\\xA", "\\u00", "\\u004", "\\U0000", "\\U000000", "\\", "$", "text \\", "text $"] {
         for t in [")", "catch", "=="] {
-            let mut lines: Vec<String> = vec![format!("var broken = \"{}", esc), "\";".to_string()];
+            let second = if esc.ends_with('\\') || esc.ends_with('$') { "// \";" } else { "\";" };
+            let mut lines: Vec<String> = vec![format!("var broken = \"{}", esc), second.to_string()];
             lines.extend(base.iter().map(|l| l.to_string()));
             lines.insert(7, t.to_string());
             cases.push((lines.join("\n") + "\n", 8, t.to_string()));
